@@ -167,11 +167,18 @@ fn run_case(cx: &CaseCtx, rep: &mut Report) {
 				continue; // one override for the whole server
 			}
 			let opts = GenOpts { max_tiles: 60, max_level: 31, formats: vec![(*f, *c)], really_compress: true, ..Default::default() };
-			let ts = gen::gen_tileset(&mut rng, &opts);
+			let mut ts = gen::gen_tileset(&mut rng, &opts);
+			if flip || swap {
+				// the deepest levels take part in the relocation as well
+				for (z, x, y) in [(31u8, 5u32, 2147483000u32), (31, 2147483647, 0), (30, 1073741823, 1073741823)] {
+					ts.tiles.insert((z, x, y), crate::comp::compress(&gen::payload_unique(z, x, y, 40, &mut rng), *c));
+				}
+			}
 			let path = dir.join(format!("s{i}")).join("tiles_dir");
 			let mut named = ts.clone();
 			named.comp = Comp::None; // file names say "uncompressed", the bytes are not
-			if let Err(e) = crate::codec::idir::encode(&named, &path, &crate::codec::idir::EncOpts { meta_name: "tiles.json", no_meta: false, stray_files: false, alt_spellings: false }) {
+			// the first folder spells some numbers with a leading zero / plus sign (the reader reads names as numbers)
+			if let Err(e) = crate::codec::idir::encode(&named, &path, &crate::codec::idir::EncOpts { meta_name: "tiles.json", no_meta: false, stray_files: false, alt_spellings: i == 0, symlinks: false }) {
 				rep.inconclusive(&format!("fixture write failed: {e}"));
 				return;
 			}
